@@ -341,7 +341,32 @@ func ruleCondContext(c *Ctx) {
 			c.Lost("adapter."+method, "scopeContext."+method+" not found")
 			return
 		}
-		m := c.P.NewFuncCFG(fd).Mentions(fd.Decl.Body, nil)
+		f := c.P.NewFuncCFG(fd)
+		m := f.Mentions(fd.Decl.Body, nil)
+		// every answer comes from the accessor: no return that decides without consulting it (a shortcut such as
+		// "called by entry, so the caller has no groups" answers for a caller it never looked at - the entry of a
+		// verification is the signer's own verify method, a contract that may well be in a group)
+		shortcut := ""
+		for _, r := range f.Returns() {
+			ret, ok := r.node.(*ast.ReturnStmt)
+			if !ok || len(ret.Results) == 0 {
+				continue
+			}
+			rm := map[string]bool{}
+			for _, e := range ret.Results {
+				for k := range f.Mentions(e, r.blk) {
+					rm[k] = true
+				}
+			}
+			if !rm[wantSym] && !rm["var:error"] {
+				shortcut = c.P.Pos(ret.Pos())
+			}
+		}
+		if shortcut != "" {
+			c.Fail("adapter."+method+".no-shortcut", shortcut, fmt.Sprintf("scopeContext.%s returns an answer here that does not come from %s: the question is decided without looking at the script it is about", method, shortSym(wantSym)))
+		} else {
+			c.OK("adapter."+method+".no-shortcut", c.P.Pos(fd.Decl.Pos()), "every answer of "+method+" comes from "+shortSym(wantSym))
+		}
 		if m[wantSym] && !m[notSym] {
 			c.OK("adapter."+method, c.P.Pos(fd.Decl.Pos()), method+" is answered from "+shortSym(wantSym))
 		} else {
@@ -369,6 +394,56 @@ func ruleCondContext(c *Ctx) {
 		{ID: "getContractGroups", Fn: [3]string{rt, "", "getContractGroups"}, Target: "call:pkg/core/interop.(*Context).GetContract",
 			Guards: []Guard{{ID: "read-states", Doc: "group lookup needs the ReadStates flag", Alts: [][]string{{"pkg/smartcontract/callflag.ReadStates", symHas}}}}},
 	})
+	// scopes combine by "or": a scope whose test says no does not answer for the signer, the scopes after it (and the
+	// rules) are still consulted. Inside the arm of CalledByEntry / CustomContracts / CustomGroups the only returns are
+	// `return true, nil` and error returns; `return <test>, nil` would end the evaluation on a negative answer.
+	if fd := c.P.Func(rt, "", "checkScope"); fd != nil {
+		f := c.P.NewFuncCFG(fd)
+		narm := 0
+		ast.Inspect(fd.Decl.Body, func(x ast.Node) bool {
+			is, ok := x.(*ast.IfStmt)
+			if !ok {
+				return true
+			}
+			m := f.DirectMentions(is.Cond)
+			arm := ""
+			for _, sc := range []string{"CalledByEntry", "CustomContracts", "CustomGroups"} {
+				if m["pkg/core/transaction."+sc] && m["pkg/core/transaction#Scopes"] {
+					arm = sc
+				}
+			}
+			if arm == "" {
+				return true
+			}
+			narm++
+			bad := ""
+			ast.Inspect(is.Body, func(y ast.Node) bool {
+				ret, ok := y.(*ast.ReturnStmt)
+				if !ok || len(ret.Results) != 2 {
+					return true
+				}
+				if v, isC := boolConst(f.Info, ret.Results[0]); isC {
+					if v {
+						return true // allow
+					}
+					// `return false, err`
+					if id, ok := ast.Unparen(ret.Results[1]).(*ast.Ident); !ok || id.Name != "nil" {
+						return true
+					}
+				}
+				bad = c.P.Pos(ret.Pos())
+				return true
+			})
+			key := "checkScope.arm-falls-through." + arm
+			if bad == "" {
+				c.OK(key, c.P.Pos(is.Pos()), "a negative answer of the "+arm+" scope falls through to the scopes after it")
+			} else {
+				c.Fail(key, bad, "checkScope: the "+arm+" arm returns its own test result: when the test says no the evaluation ends there and the scopes that follow (the signer's rules) are never consulted - a signer with this scope and Rules set is refused where its rules allow")
+			}
+			return true
+		})
+		c.Floor("scope arms of checkScope", narm, 3)
+	}
 	// group answers are looked up for the very contract asked about, on every call: every use of a contract's groups
 	// in the runtime package is preceded by getContractGroups in the same function (no answer reused across contracts)
 	if rp := c.P.Pkg(rt); rp != nil {
